@@ -62,6 +62,8 @@ def main(tier, replay, t0):
                 if nm not in [k["name"] for k in want] and nm not in [k["name"] for k in skipped]:
                     viol.append(Violation("unexpected-constant", "name", "module exports %s which "
                                           "is not a WGSL constant" % nm, base))
+            if x.get("include_path") is not None and not x.get("include_file_in_place"):
+                continue  # include_str! of a path that cannot name a file: caller's business
             if not camp.module_ok(c.id, x["id"]):
                 d = camp.rustc.get("%s/%s/m.rs" % (c.id, x["id"]), {}).get("diags", [{}])
                 viol.append(Violation("module-does-not-compile", d[0].get("code") or "?",
